@@ -211,7 +211,9 @@ def run(ctx):
             if vals is None:
                 raise InfraError("THDM base point %s type %d rejected: %s" % (b, t, exc))
             masses = vals[7:18]
-            for mi, mov in enumerate(["mh", "mH", "mA", "mHp"]):
+            # the SM Higgs mass (SM::set_mh, index 10 of the harness parameters) is a moving mass like the four
+            # THDM Higgs masses: "a mass equal to ... the SM Higgs mass" is reached from either side
+            for mi, mov in ((0, "mh"), (1, "mH"), (2, "mA"), (3, "mHp"), (10, "mhSM")):
                 for lab, m0 in sorted(targets(masses, TH_MASS, mov, rich).items()):
                     if not (10.0 <= m0 <= 1e4):
                         continue
@@ -221,9 +223,9 @@ def run(ctx):
                         continue
                     for r in runnings:
                         for d in OFFS:
-                            p = list(TH_BASE[b]); p[mi] = m0 * (1 + d)
+                            p = list(TH_BASE[b]) + [t, 125.09, r]; p[mi] = m0 * (1 + d)
                             cid = "t%d" % len(cases)
-                            cases.append((cid, "T", p + [t, 125.09, r]))
+                            cases.append((cid, "T", p))
                             meta[cid] = (b, t, r, mov, lab, d)
     res = evaluate(exe, cases)
     ncases += len(cases)
@@ -365,7 +367,7 @@ def run(ctx):
     lat = [10.0 ** (j / 8.0) for j in range(8, 33)]          # 10 .. 1e4 GeV
     for b in bases:
         for t in ([2] if ctx.quick else [2, 5, 6]):
-            for mi, mov in enumerate(["mh", "mH", "mA", "mHp"]):
+            for mi, mov in ((0, "mh"), (1, "mH"), (2, "mA"), (3, "mHp"), (10, "mhSM")):
                 ts = [x for x in lat if not (mov == "mh" and x > TH_BASE[b][1]) and not (mov == "mH" and x < TH_BASE[b][0])]
                 lines.append(("LT", "L%s%d%s" % (b, t, mov), mi, TH_BASE[b] + [t, 125.09, 1], ts, ("THDM", b, t, mov)))
     for b in mbases:
@@ -408,27 +410,33 @@ def run(ctx):
                 elif tk[0] == "CAP":
                     ctx.cap("boundaries>48:%s" % lid)
             nbd += len(bds)
+            # name a location on the line: which coincidence of the other masses is it?
+            if model == "THDM":
+                base_masses = [TH_BASE[b][0], TH_BASE[b][1], TH_BASE[b][2], TH_BASE[b][3]] + th_sm_masses
+                tg = targets(base_masses, TH_MASS, mov, True)
+            else:
+                tg = {}
+
+            def location(x):
+                for lab, m0 in sorted(tg.items()):
+                    if abs(abs(x) - m0) <= 1e-6 * m0:
+                        return lab
+                return None
             for tv, v in sorted(pts.items()):
                 if v is not None:
+                    bad = {names[ci] for ci, y in enumerate(v) if not math.isfinite(y)}
                     for ci, y in enumerate(v):
                         if not math.isfinite(y):
-                            ctx.fail("%s.%s:%s-line:nonfinite%s" % (model, names[ci], mov, ":massless-sfermion" if tv in massless else ""), "%s %s = %r at %s = %r (base %s, type %s)" % (model, names[ci], y, mov, tv, b, t),
+                            if any(pn in bad for pn in DERIVED[model].get(names[ci], [])):
+                                continue      # a sum / uncertainty built from a non-finite part: reported at the part
+                            lab = location(tv)
+                            ctx.fail("%s.%s:%s%s:nonfinite%s" % (model, names[ci], mov, ("=" + lab) if lab else "-line", ":massless-sfermion" if tv in massless else ""), "%s %s = %r at %s = %r (base %s, type %s)" % (model, names[ci], y, mov, tv, b, t),
                                      {"model": model, "base": b, "ytype": t, "moving": mov, "value": hexf(tv)}, max_per_key=1)
             for a, bb in bds:
                 va, vb = pts.get(a), pts.get(bb)
                 if va is None or vb is None:
                     continue
-                # name the location: which coincidence of the other masses is it?
-                if model == "THDM":
-                    base_masses = [TH_BASE[b][0], TH_BASE[b][1], TH_BASE[b][2], TH_BASE[b][3]] + th_sm_masses
-                    tg = targets(base_masses, TH_MASS, mov, True)
-                else:
-                    tg = {}
-                where = "at~%.5g" % a
-                for lab, m0 in sorted(tg.items()):
-                    if abs(abs(a) - m0) <= 1e-6 * m0:
-                        where = lab
-                        break
+                where = location(a) or "at~%.5g" % a
                 jumped = set()
                 order = [n for n in names if n not in DERIVED[model]] + [n for n in names if n in DERIVED[model]]
                 for cn in order:
